@@ -86,7 +86,7 @@ func (P *Prog) verifyFunction(fn *ssa.Function, ct *Contract) (rep *FnReport) {
 			g := env.evalBool(en.Expr)
 			ex.addOblSk("claim", fmt.Sprintf("%d", i+1), fn.Pos(), out, g, env.skolems, en.Src)
 		}
-		ex.frameObligations(fr, out, ct)
+		ex.frameObligations(fr, out, ct, "frame")
 	}
 	// cover: the precondition is satisfiable and some return is reachable
 	if ct != nil {
@@ -223,90 +223,172 @@ func (ex *Exec) modSpecs(fr *Frame, ct *Contract) []modSpec {
 	return out
 }
 
-// frameObligations: every heap family that differs from the entry state may differ only
-// at locations covered by the modifies clauses (objects allocated during the call excepted).
-func (ex *Exec) frameObligations(fr *Frame, out *State, ct *Contract) {
-	mods := ex.modSpecs(fr, ct)
+// frameRel describes, for one heap family, the relation "cur agrees with the entry state
+// outside the modifies clauses" at a symbolic location (r, k): hyp ⇒ eq.
+type frameRel struct {
+	name    string
+	skolems []*Term
+	hyp, eq *Term
+}
+
+// frameRelation builds the frame relation for heap family `name` whose current contents are cur.
+// r and k are the (fresh or bound) reference and index at which the relation is stated.
+func (ex *Exec) frameRelation(mods []modSpec, name string, cur *Term, r, k *Term) (hyp, eq *Term, usesK bool) {
+	entry := ex.entry
+	old := entry.heap(name, heapSorts[name])
+	parts := strings.SplitN(name, "|", 3)
+	fam, key, leaf := parts[0], parts[1], parts[2]
+	matches := func(l Loc) bool {
+		prefix, _, _ := pathString(l.Root, l.Path)
+		return leaf == prefix || strings.HasPrefix(leaf, prefix+".") || prefix == ""
+	}
+	var covered []*Term
+	switch fam {
+	case "H":
+		for _, m := range mods {
+			if m.kind == "loc" && m.loc.Kind == LHeap && typeKey(m.loc.Root) == key && matches(m.loc) {
+				covered = append(covered, Eq(r, m.loc.Ref))
+			}
+		}
+		return And(ULt(r, entry.Alloc), Not(Or(covered...))), Eq(Select(cur, r), Select(old, r)), false
+	case "E":
+		for _, m := range mods {
+			switch m.kind {
+			case "elems":
+				et := m.slice.Ty.Underlying().(*types.Slice).Elem()
+				if typeKey(et) == key {
+					covered = append(covered, And(Eq(r, m.slice.Arr), SLe(m.slice.Off, k), SLt(k, Add(m.slice.Off, m.slice.Len))))
+				}
+			case "loc":
+				if m.loc.Kind == LElem && typeKey(m.loc.Root) == key && matches(m.loc) {
+					covered = append(covered, And(Eq(r, m.loc.Arr), Eq(k, m.loc.Idx)))
+				}
+			}
+		}
+		return And(ULt(r, entry.Alloc), Not(Or(covered...))), Eq(Select(Select(cur, r), k), Select(Select(old, r), k)), true
+	case "M":
+		for _, m := range mods {
+			if m.kind == "entries" {
+				mt := m.mapv.Ty.Underlying().(*types.Map)
+				if strings.HasPrefix(name, mapFam(mt)+"|") {
+					covered = append(covered, Eq(r, m.mapv.T))
+				}
+			}
+		}
+		return And(ULt(r, entry.Alloc), Not(Or(covered...))), Eq(Select(cur, r), Select(old, r)), false
+	case "G":
+		for _, m := range mods {
+			if m.kind == "loc" && m.loc.Kind == LGlobal && m.loc.Glob == key {
+				return False, True, false
+			}
+		}
+		return True, Eq(cur, old), false
+	}
+	return False, True, false
+}
+
+func modsEverything(mods []modSpec) bool {
 	for _, m := range mods {
 		if m.kind == "everything" {
-			return
+			return true
 		}
+	}
+	return false
+}
+
+// frameObligations: every heap family that differs from the entry state may differ only
+// at locations covered by the modifies clauses (objects allocated during the call excepted).
+// kind is "frame" (at return) or "loop-frame" (at a back edge).
+func (ex *Exec) frameObligations(fr *Frame, out *State, ct *Contract, kind string) {
+	if ct == nil || ex.top == nil {
+		return
+	}
+	mods := ex.modSpecs(ex.top, ct)
+	if modsEverything(mods) {
+		return
 	}
 	entry := ex.entry
 	if out.Epoch != entry.Epoch {
-		ex.addObl("frame", "everything", fr.fn.Pos(), out, False, nil)
+		ex.addObl(kind, "everything", fr.fn.Pos(), out, False, nil)
 		return
 	}
 	for _, name := range out.heapNames() {
 		cur := out.Heap[name]
-		old := entry.heap(name, heapSorts[name])
-		if cur == old {
+		if cur == entry.heap(name, heapSorts[name]) {
 			continue
 		}
-		parts := strings.SplitN(name, "|", 3)
-		fam, key, leaf := parts[0], parts[1], parts[2]
-		switch fam {
-		case "H":
-			r := Fresh("fr_ref", RefSort)
-			var covered []*Term
-			for _, m := range mods {
-				if m.kind != "loc" || m.loc.Kind != LHeap || typeKey(m.loc.Root) != key {
-					continue
-				}
-				prefix, _, _ := pathString(m.loc.Root, m.loc.Path)
-				if leaf == prefix || strings.HasPrefix(leaf, prefix+".") || prefix == "" {
-					covered = append(covered, Eq(r, m.loc.Ref))
-				}
-			}
-			hyp := And(ULt(r, entry.Alloc), Not(Or(covered...)))
-			ex.addObl("frame", name, fr.fn.Pos(), out, Implies(hyp, Eq(Select(cur, r), Select(old, r))), []*Term{r})
-		case "E":
-			r := Fresh("fr_arr", RefSort)
-			k := Fresh("fr_idx", IntSort)
-			var covered []*Term
+		r := Fresh("fr_ref", RefSort)
+		k := Fresh("fr_idx", IntSort)
+		hyp, eq, usesK := ex.frameRelation(mods, name, cur, r, k)
+		sk := []*Term{r}
+		if usesK {
+			sk = append(sk, k)
+		}
+		ex.addObl(kind, name, fr.fn.Pos(), out, Implies(hyp, eq), sk)
+	}
+}
+
+// assumeLoopFrame constrains a heap family that was havocked at a loop head: outside the
+// function's modifies clauses it still agrees with the entry state (checked at back edges).
+func (ex *Exec) assumeLoopFrame(st *State, name string, cur *Term) {
+	if ex.contract == nil || ex.top == nil {
+		return
+	}
+	mods := ex.modSpecs(ex.top, ex.contract)
+	if modsEverything(mods) {
+		return
+	}
+	fam := name[:1]
+	g := st.G
+	switch fam {
+	case "G":
+		hyp, eq, _ := ex.frameRelation(mods, name, cur, nil, nil)
+		st.assume(Implies(hyp, eq))
+	case "H", "M":
+		ex.addLazy(&LazyForall{Guard: g, Sort: RefSort, Desc: "loop frame of " + name, Body: func(r *Term) *Term {
+			hyp, eq, _ := ex.frameRelation(mods, name, cur, r, nil)
+			return Implies(hyp, eq)
+		}})
+	case "E":
+		// two bound variables: instantiate references lazily, and per reference the index lazily
+		ex.addLazy(&LazyForall{Guard: g, Sort: RefSort, Desc: "loop frame of " + name + " (rows)", Body: func(r *Term) *Term {
+			// rows of arrays that no modifies clause mentions are unchanged as a whole
+			entry := ex.entry
+			old := entry.heap(name, heapSorts[name])
+			var mentioned []*Term
+			key := strings.SplitN(name, "|", 3)[1]
 			for _, m := range mods {
 				switch m.kind {
 				case "elems":
-					et := m.slice.Ty.Underlying().(*types.Slice).Elem()
-					if typeKey(et) != key {
-						continue
+					if typeKey(m.slice.Ty.Underlying().(*types.Slice).Elem()) == key {
+						mentioned = append(mentioned, Eq(r, m.slice.Arr))
 					}
-					covered = append(covered, And(Eq(r, m.slice.Arr), SLe(m.slice.Off, k), SLt(k, Add(m.slice.Off, m.slice.Len))))
 				case "loc":
-					if m.loc.Kind != LElem || typeKey(m.loc.Root) != key {
-						continue
-					}
-					prefix, _, _ := pathString(m.loc.Root, m.loc.Path)
-					if leaf == prefix || strings.HasPrefix(leaf, prefix+".") || prefix == "" {
-						covered = append(covered, And(Eq(r, m.loc.Arr), Eq(k, m.loc.Idx)))
+					if m.loc.Kind == LElem && typeKey(m.loc.Root) == key {
+						mentioned = append(mentioned, Eq(r, m.loc.Arr))
 					}
 				}
 			}
-			hyp := And(ULt(r, entry.Alloc), Not(Or(covered...)))
-			ex.addObl("frame", name, fr.fn.Pos(), out, Implies(hyp, Eq(Select(Select(cur, r), k), Select(Select(old, r), k))), []*Term{r, k})
-		case "M":
-			r := Fresh("fr_map", RefSort)
-			var covered []*Term
-			for _, m := range mods {
-				if m.kind == "entries" {
-					mt := m.mapv.Ty.Underlying().(*types.Map)
-					if strings.HasPrefix(name, mapFam(mt)+"|") {
-						covered = append(covered, Eq(r, m.mapv.T))
-					}
+			return Implies(And(ULt(r, entry.Alloc), Not(Or(mentioned...))), Eq(Select(cur, r), Select(old, r)))
+		}})
+		for _, m := range mods {
+			var arr *Term
+			switch m.kind {
+			case "elems":
+				arr = m.slice.Arr
+			case "loc":
+				if m.loc.Kind == LElem {
+					arr = m.loc.Arr
 				}
 			}
-			hyp := And(ULt(r, entry.Alloc), Not(Or(covered...)))
-			ex.addObl("frame", name, fr.fn.Pos(), out, Implies(hyp, Eq(Select(cur, r), Select(old, r))), []*Term{r})
-		case "G":
-			covered := false
-			for _, m := range mods {
-				if m.kind == "loc" && m.loc.Kind == LGlobal && m.loc.Glob == key {
-					covered = true
-				}
+			if arr == nil {
+				continue
 			}
-			if !covered {
-				ex.addObl("frame", name, fr.fn.Pos(), out, Eq(cur, old), nil)
-			}
+			a := arr
+			ex.addLazy(&LazyForall{Guard: g, Sort: IntSort, Desc: "loop frame of " + name + " (elements)", Body: func(k *Term) *Term {
+				hyp, eq, _ := ex.frameRelation(mods, name, cur, a, k)
+				return Implies(hyp, eq)
+			}})
 		}
 	}
 }
